@@ -6,7 +6,7 @@ from vlib import faults, gen_doc, pipeline, ref_ack
 PROPERTY = 'C03'
 LEVEL = 'fault_enumeration'
 RULE = ('Base documents: generated conformant documents of every selectable map with >=2 transaction sets (so that "other sets remain accepted" is observable). For each base the fault '
-        'catalogue (vlib/faults: too long, too short, outside code list, wrong character class / control character, impossible date, impossible time, missing required element, value in a '
+        'catalogue (vlib/faults: too long, too short, outside code list, wrong character class / control character, impossible date, impossible time, impossible date / range / date-time / time in a DTP03 whose format DTP02 announces, missing required element, value in a '
         'not-used element, one element too many, one component too many, broken syntax note, unknown segment, known segment out of place, missing required segment, segment beyond max_use, loop '
         'beyond repeat) is applied one fault at a time at sampled (quick) or all applicable (thorough) kinds per base, SE01 repaired for structural faults. Oracle: verdict False; the captured '
         'error tree holds an error of the expected level and standard code in the expected set, at the expected position in set and element/component position, with the expected echoed value; the '
@@ -14,7 +14,7 @@ RULE = ('Base documents: generated conformant documents of every selectable map 
         'non-trivial = distinct (map, node path, fault kind) triples decided.')
 ASSUMPTIONS = ['a syntax fault may be reported at any element position the violated note names', 'unknown / out-of-place segments may be reported with segment code 1 or 2',
                'faults are only injected where they cannot change how the segment or its neighbours are matched (no qualifiers, HL/LX numbers, BHT02), except the structural kinds, which are constructed so that the successor still matches its own node first']
-REQUIRED_COUNTERS = ['bases:with-interleaved-sibling-loops', 'bases:with-X,Y,X-sibling-loops', 'missing_segment:in-later-instance-after-sibling-loop', 'bad_code:member-of-another-external-set-seen-earlier', 'missing_required:whole-composite', 'missing_required:whole-composite:at-the-tail', 'faults'] + ['kind:' + k for k in faults.ALL_KINDS] + ['localised', 'others-accepted-checked']
+REQUIRED_COUNTERS = ['bases:with-interleaved-sibling-loops', 'bases:with-X,Y,X-sibling-loops', 'missing_segment:in-later-instance-after-sibling-loop', 'bad_code:member-of-another-external-set-seen-earlier', 'missing_required:whole-composite', 'missing_required:whole-composite:at-the-tail', 'bad_qualified_datetime:format:DT', 'bad_qualified_datetime:format:TM', 'bad_qualified_datetime:format:RD8', 'faults'] + ['kind:' + k for k in faults.ALL_KINDS] + ['localised', 'others-accepted-checked']
 MIN_CASES = {'quick': 1200, 'thorough': 30000}
 WATCHDOG_S = {'quick': 1200, 'thorough': 7200}
 
@@ -163,7 +163,7 @@ def run(ctx):
             reps = 1 if ctx.quick else 3
             kinds = faults.ALL_KINDS if not only_xyx else ['missing_segment', 'max_use', 'loop_repeat', 'out_of_place', 'missing_required']
             for kind in kinds:
-                for rep in range(reps + (4 if xyx and kind == 'missing_segment' else 0)):
+                for rep in range(reps + (4 if xyx and kind == 'missing_segment' else 0) + (2 if kind == 'bad_qualified_datetime' else 0)):
                     f = faults.inject(rng, base, kind=kind, tries=6)
                     if f is None:
                         ctx.count('not-applicable:' + kind)
@@ -171,6 +171,8 @@ def run(ctx):
                     case = {'map': e['file'], 'entry': e, 'gen_seed': seed, 'params': kw, 'fault': f.describe(), 'text': f.doc.text() if len(f.doc.recs) < 120 else None}
                     if f.note == 'member-of-another-external-set-seen-earlier':
                         ctx.count('bad_code:member-of-another-external-set-seen-earlier')
+                    if f.note and f.note.startswith('format:'):
+                        ctx.count('bad_qualified_datetime:' + f.note)
                     if f.note and f.note.startswith('whole-composite'):
                         ctx.count('missing_required:' + f.note)
                     if f.note == 'later-instance-after-sibling':
